@@ -6,12 +6,12 @@ namespace Gate.C12
 
 def Held.afterT : Held → Task → Option Held
   | h, .act a => h.after a
-  | .none, .iterNext _ => none
+  | .free, .iterNext _ => Option.none
   | h, .iterNext _ => some h
 
 /-- the remaining stack of a thread is well locked from the mode the thread holds now -/
 def wlT : Held → List Task → Bool
-  | h, [] => h == .none
+  | h, [] => h == .free
   | h, t :: rest => match h.afterT t with
     | some h' => wlT h' rest
     | none => false
@@ -27,7 +27,7 @@ theorem wlT_map_act (h : Held) (p : List Act) : wlT h (p.map Task.act) = wl h p 
 
 /-- the mode thread `t` holds in state `s` -/
 def heldOf (s : Sys) (t : Nat) : Held :=
-  if s.writer = some t then .w else if t ∈ s.readers then .r else .none
+  if s.writer = some t then .w else if t ∈ s.readers then .r else .free
 
 structure Inv (s : Sys) : Prop where
   excl    : s.writer.isSome = true → s.readers = []
@@ -54,7 +54,7 @@ theorem heldOf_r {s : Sys} {t : Nat} (h : heldOf s t = .r) : s.writer ≠ some t
     · exact ⟨by assumption, by assumption⟩
     · cases h
 
-theorem heldOf_none {s : Sys} {t : Nat} (h : heldOf s t = .none) : s.writer ≠ some t ∧ t ∉ s.readers := by
+theorem heldOf_none {s : Sys} {t : Nat} (h : heldOf s t = .free) : s.writer ≠ some t ∧ t ∉ s.readers := by
   unfold heldOf at h
   split at h
   · cases h
@@ -62,7 +62,7 @@ theorem heldOf_none {s : Sys} {t : Nat} (h : heldOf s t = .none) : s.writer ≠ 
     · cases h
     · exact ⟨by assumption, by assumption⟩
 
-theorem canRead_of_held {s : Sys} {t : Nat} (h : heldOf s t ≠ .none) : s.canRead t = true := by
+theorem canRead_of_held {s : Sys} {t : Nat} (h : heldOf s t ≠ .free) : s.canRead t = true := by
   unfold heldOf at h
   unfold Sys.canRead
   split at h
@@ -72,7 +72,7 @@ theorem canRead_of_held {s : Sys} {t : Nat} (h : heldOf s t ≠ .none) : s.canRe
     · exact absurd rfl h
 
 /-- a thread in the middle of a range holds the mutex (in some mode) -/
-theorem Inv.iter_held {s : Sys} (inv : Inv s) {u : Nat} (hu : u ∈ s.iterating) : heldOf s u ≠ .none := by
+theorem Inv.iter_held {s : Sys} (inv : Inv s) {u : Nat} (hu : u ∈ s.iterating) : heldOf s u ≠ .free := by
   obtain ⟨i, rest, hth, _, _⟩ := inv.iterHead u hu
   have := inv.wlAll u _ hth
   intro hn
